@@ -300,6 +300,8 @@ pub enum Plan {
     Last,
     /// positions spread over the last 15 buckets (runs that wrap around the end): position = !0 - (id % 15)
     Tail,
+    /// same position and tag for every key, but pairwise different 64-bit hashes (middle bits = id)
+    Mid,
     /// explicit (position, tag) per class: id % n selects entry
     Adv(u8),
 }
@@ -347,6 +349,7 @@ impl Plan {
                 }
                 Plan::Last => mk_hash((u64::MAX >> 7) - (i % 3), 0x2a),
                 Plan::Tail => mk_hash((u64::MAX >> 7) - (i % 15), 0x2a),
+                Plan::Mid => mk_hash(3 | ((i + 1) << 24), 0x09),
                 Plan::Adv(g) => {
                     let grid = ADV_GRID[g as usize];
                     let (p, tg) = grid[id % grid.len()];
